@@ -1300,7 +1300,7 @@ fn scen_oracle(sc: &Scen, obs: &str) -> String {
     }
 }
 
-const SVALUES: [&str; 12] = ["5", "0", "1", "-3", "+7", "010", "0x1F", "9223372036854775807", "", "junk", " 1", "08"];
+const SVALUES: [&str; 15] = ["5", "0", "1", "-3", "+7", "010", "0x1F", "9223372036854775807", "", "junk", " 1", "08", "1+2", "b", "2*b"];
 
 fn random_scen(r: &mut Rng, sh: &[Shape]) -> Scen {
     let mut globals = vec![];
@@ -1838,6 +1838,47 @@ fn main() {
             env.insert(n.to_string(), "7".to_string());
             out.put(make_case(text.clone(), &env, None));
             out.put(make_portable(make_case(text, &Env::new(), None)));
+        }
+    }
+
+    // 6c. skipped operands and the order of failures: a side-effecting or failing operand on the skipped side
+    //     of `&&`, `||`, `?:` (must leave no trace), on the evaluated side (must act), and two failing operands
+    //     of one operator (the left one is reported; the right one when the left operand only fails when read)
+    {
+        let x = || var("x");
+        let num = |n: i64| Num(n, 0);
+        let div0 = || Bin("/", b(num(1)), b(num(0)));
+        let effects: Vec<Ex> = vec![
+            Post("++", b(x())), Pre("--", b(x())), Bin("=", b(x()), b(num(5))), Bin("+=", b(x()), b(num(2))), div0(),
+            Bin("=", b(x()), b(div0())), var("j"), Bin("<<", b(num(1)), b(Pre("-", b(num(1))))),
+            Bin("=", b(var("y")), b(Post("++", b(x())))), Bin("+", b(Bin("=", b(x()), b(num(7)))), b(div0())),
+            Post("++", b(num(3))), Bin("%", b(x()), b(num(0))),
+        ];
+        let mut env = Env::new();
+        env.insert("x".into(), "4".into());
+        env.insert("j".into(), "junk".into());
+        let mut forms: Vec<Ex> = vec![];
+        for e in &effects {
+            for c in [0i64, 1, 5] {
+                forms.push(Bin("&&", b(num(c)), b(e.clone())));
+                forms.push(Bin("||", b(num(c)), b(e.clone())));
+                forms.push(Cond(b(num(c)), b(e.clone()), b(num(3))));
+                forms.push(Cond(b(num(c)), b(num(2)), b(e.clone())));
+                forms.push(Bin("&&", b(num(c)), b(Bin("||", b(num(1 - c.min(1))), b(e.clone())))));
+                forms.push(Bin("||", b(Bin("&&", b(num(c)), b(e.clone()))), b(Post("--", b(x())))));
+            }
+            for e2 in &effects {
+                forms.push(Bin("+", b(e.clone()), b(e2.clone())));
+                forms.push(Bin("*", b(Pre("-", b(e.clone()))), b(e2.clone())));
+            }
+            forms.push(Bin("=", b(var("y")), b(e.clone())));
+            forms.push(Bin("+=", b(x()), b(e.clone())));
+            forms.push(Cond(b(e.clone()), b(num(1)), b(num(2))));
+        }
+        for (i, t) in forms.iter().enumerate() {
+            let text = render(t, if i % 3 == 0 { 20 } else { 0 }, (i % 3) as u8, &mut r);
+            let c = make_case(text, &env, Some(t));
+            out.put(if i % 7 == 6 { make_portable(c) } else { c });
         }
     }
 
